@@ -231,11 +231,19 @@ void build(bool thorough) {
     for (size_t len : {(size_t)2, (size_t)3, (size_t)254, (size_t)255, (size_t)256}) {
       std::string b = base_name(len);
       auto ps = positions(len);
+      // every byte value x every class representative at two positions for the short names and the longest
+      // valid length; class x class at the neighbouring lengths (a 255-byte regex match costs ~0.5 ms under ASan)
+      const bool full = len <= 3 || len == 255;
       for (size_t i = 0; i < ps.size(); ++i)
         for (size_t j = 0; j < ps.size(); ++j) {
           if (i == j) continue;
-          for (int v = 0; v < 256; ++v)
-            for (char ch : kClasses) { std::string m = b; m[ps[i]] = (char)v; m[ps[j]] = ch; sweep2.push_back(intern(g_names, nidx, m)); }
+          if (full) {
+            for (int v = 0; v < 256; ++v)
+              for (char ch : kClasses) { std::string m = b; m[ps[i]] = (char)v; m[ps[j]] = ch; sweep2.push_back(intern(g_names, nidx, m)); }
+          } else if (i < j) {
+            for (char c1 : kClasses)
+              for (char c2 : kClasses) { std::string m = b; m[ps[i]] = c1; m[ps[j]] = c2; sweep2.push_back(intern(g_names, nidx, m)); }
+          }
         }
     }
   auto uniq = [](std::vector<uint32_t> &v) { std::sort(v.begin(), v.end()); v.erase(std::unique(v.begin(), v.end()), v.end()); };
